@@ -19,7 +19,7 @@ LEVEL_TEXT = ("Every spec with <=k deviations is built batched (sizes 1,2,3,8) a
               "all other rows bit-identical. Distinct rows/datasets make any batch-index slip visible.")
 LEVEL_NOTE = "trusted: the unbatched model (itself decided by C01/C02); bounds: <=3 deviations numpy, fewer elsewhere; batch sizes {1,2,3,8}"
 
-SETTINGS = [("code4", "code4p"), ("code1", "code0")]
+SETTINGS = [("code4", "code4p"), ("code1", "code0"), ("code4", "code2")]
 
 
 def plan(tier, seed):
